@@ -90,24 +90,26 @@ class Ser:
             effs = [(0, [(I("eff", e), 0) for e in a.effects])]
             asg = [(0, [(self.x(f), self.valkey(v)) for f, v in a._fluents_assigned.items()])]
             incdec = [(0, sorted((self.x(f), 0) for f in a._fluents_inc_dec))]
+            ceffs = []
         elif isinstance(a, DurativeAction):
             conds = frozenset((i, frozenset(cl)) for i, cl in a.conditions.items())
-            ceffs = frozenset((i, frozenset(el)) for i, el in a.continuous_effects.items())
-            static = I("act-static", ("dur", type(a).__name__, a.name, params, a.duration, conds, ceffs,
+            static = I("act-static", ("dur", type(a).__name__, a.name, params, a.duration, conds,
                                       frozenset(a.simulated_effects.items())))
+            ceffs = [(I("iv", i), [(I("eff", e), 0) for e in el]) for i, el in a._continuous_effects.items()]
             sim = [(I("t", t), [self.x(f) for f in se.fluents]) for t, se in a.simulated_effects.items()]
             effs = [(I("t", t), [(I("eff", e), 0) for e in el]) for t, el in a.effects.items()]
             asg = [(I("t", t), [(self.x(f), self.valkey(v)) for f, v in d.items()]) for t, d in a._fluents_assigned.items()]
             incdec = [(I("t", t), sorted((self.x(f), 0) for f in fs)) for t, fs in a._fluents_inc_dec.items()]
         else:
             static = I("act-static", ("other", a))
-            sim, effs, asg, incdec = [], [], [], []
-        return ("{| a_static := %s; a_sim := %s; a_effs := %s; a_asg := %s; a_incdec := %s |}" % (
+            sim, effs, asg, incdec, ceffs = [], [], [], [], []
+        return ("{| a_static := %s; a_sim := %s; a_effs := %s; a_asg := %s; a_incdec := %s; a_ceffs := %s |}" % (
             gn(static),
             glist([gpair(gn(t), glist([gn(f) for f in fs])) for t, fs in sim]),
             glist([gpair(gn(t), glist([gval(*v) for v in vs])) for t, vs in effs]),
             glist([gpair(gn(t), glist([gNN(*kv) for kv in kvs])) for t, kvs in asg]),
-            glist([gpair(gn(t), glist([gval(*v) for v in vs])) for t, vs in incdec])))
+            glist([gpair(gn(t), glist([gval(*v) for v in vs])) for t, vs in incdec]),
+            glist([gpair(gn(t), glist([gval(*v) for v in vs])) for t, vs in ceffs])))
 
     # ---- the whole Problem part
     def dump(self, p):
@@ -239,6 +241,19 @@ class Ser:
             else:
                 t = self.I("t", up.model.Timing.from_time(E.build_timing(s["eff"]["t"], True)))
             body = "OActEffect %s %s %s" % (gn(self.name(a.name)), gn(t), dummy_eff if e is None else self.eff(e))
+        elif o == "act_ceff":
+            a = p.action(s["action"])
+            asc = E.problem_scope(p, a)
+            ce = s["ce"]
+            fl, rhs, cond = em.auto_promote(E.build_exp(env, asc, ce["fl"]), E.build_exp(env, asc, ce["rhs"]), True)
+            iv = E.build_interval(ce["iv"], True)
+            eid = 0
+            if not fl.type.is_compatible(rhs.type) or not fl.type.is_real_type():
+                pre = exc_code("UPTypeError")
+            else:
+                kind = EffectKind.CONTINUOUS_INCREASE if ce["k"] == "inc" else EffectKind.CONTINUOUS_DECREASE
+                eid = self.I("eff", Effect(fl, rhs, cond, kind=kind, forall=tuple()))
+            body = "OActContEffect %s %s %s" % (gn(self.name(a.name)), gn(self.I("iv", iv)), gn(eid))
         elif o == "time_model":
             if "epsilon" in s:
                 v = None if s["epsilon"] is None else Fraction(s["epsilon"])
